@@ -679,11 +679,11 @@ def knot_removal(degree, knotvector, ctrlpts, u, **kwargs):
     else:
         tol *= max(1.0, max(abs(c) for pt in ctrlpts for c in pt))
 
-    # Initialize temp array for storing new control points
+    # Initialize temp array for storing new control points (2p + 2 entries are used when a knot of multiplicity p + 1 is removed)
     if is_volume:
-        temp = [[[] for _ in range(len(ctrlpts_new[0]))] for _ in range((2 * degree) + 1)]
+        temp = [[[] for _ in range(len(ctrlpts_new[0]))] for _ in range((2 * degree) + 2)]
     else:
-        temp = [[] for _ in range((2 * degree) + 1)]
+        temp = [[] for _ in range((2 * degree) + 2)]
 
     # Loop for Eqs 5.28 & 5.29
     for t in range(0, num):
